@@ -133,8 +133,13 @@ def run(c, facts, tier):
             continue
         a = m.group(1)
         via = any("mgr.get_printer" in t or "mgr.get_file_printer" in t for t in row["tokens"])
-        if via or a == "DefaultPrint":
-            c.ob("C16.no-bypass", "<Action as TargetScheme>::compile", a, True, "%s writes through a mutex-protected printer%s" % (a, "" if via else " (DefaultPrint: only action present, plain mode, runtime print assumed atomic)"))
+        if via:
+            c.ob("C16.no-bypass", "<Action as TargetScheme>::compile", a, True, "%s writes through a mutex-protected printer" % a)
+        elif a == "DefaultPrint":
+            from . import c09
+
+            okp, badp = c09.premises_hold(facts)
+            c.ob("C16.no-bypass", "<Action as TargetScheme>::compile", a, okp, "DefaultPrint writes directly (runtime print, assumed atomic per record); it never runs next to a mutex-protected printer only because it is added solely to expressions without any action — premises C09.detect/C09.wrap %s" % ("hold" if okp else "are VIOLATED: %s" % badp[:2]), witness="-name a -print -o -name b with 2 threads" if not okp else None)
         else:
             c.ob("C16.no-bypass", "<Action as TargetScheme>::compile", a, False, "%s writes to the shared stdout directly (`%s`), bypassing the frame procedure's mutex when framed printers are in use" % (a, " ".join(row["tokens"])), witness="-print-file-fid -print0 with 2 threads")
     c.floor("write primitives in templates", nwrites, 2)
